@@ -51,15 +51,15 @@ def drop(d):
         _scratch.remove(d)
 
 
-def run_generator(binary, tree, strace=False, timeout=300):
+def run_generator(binary, tree, strace=False, timeout=300, prefix=None, reads=False):
     """-> dict(exit, stdout, stderr, wall_s, fs_events?)"""
     env = dict(os.environ)
     env['WOWM_VERIF_WORKSPACE'] = tree
-    cmd = [binary]
+    cmd = list(prefix or []) + [binary]
     trace = None
     if strace:
         trace = os.path.join(tree, '.strace.out')
-        cmd = ['strace', '-f', '-qq', '-o', trace, '-e', 'trace=openat,unlink,unlinkat,rename,renameat,renameat2,mkdir,mkdirat,rmdir,creat,truncate,ftruncate', binary]
+        cmd = list(prefix or []) + ['strace', '-f', '-qq', '-o', trace, '-e', 'trace=openat,unlink,unlinkat,rename,renameat,renameat2,mkdir,mkdirat,rmdir,creat,truncate,ftruncate', binary]
     t0 = time.time()
     try:
         p = subprocess.run(cmd, cwd=tree, env=env, stdout=subprocess.PIPE, stderr=subprocess.PIPE, text=True, timeout=timeout)
@@ -69,6 +69,8 @@ def run_generator(binary, tree, strace=False, timeout=300):
     res['wall_s'] = time.time() - t0
     if strace and os.path.exists(trace):
         res['fs_events'] = parse_strace(trace, tree)
+        if reads:
+            res['fs_reads'] = parse_strace(trace, tree, want_reads=True)
         os.remove(trace)
     return res
 
@@ -76,8 +78,8 @@ def run_generator(binary, tree, strace=False, timeout=300):
 _OPEN_RE = re.compile(r'^\d+\s+(\w+)\((.*)\)\s+=\s+(-?\d+)')
 
 
-def parse_strace(path, tree):
-    """-> list of (op, path) for mutating events under the tree"""
+def parse_strace(path, tree, want_reads=False):
+    """-> list of (op, path) for mutating events under the tree (or the read-only opens with want_reads)"""
     ev = []
     with open(path, errors='replace') as f:
         for line in f:
@@ -96,7 +98,12 @@ def parse_strace(path, tree):
                     kind = 'create' if 'O_CREAT' in args else 'write-open'
                     if 'O_TRUNC' in args:
                         kind += '+trunc'
-                    ev.append((kind, paths[0]))
+                    if not want_reads:
+                        ev.append((kind, paths[0]))
+                elif want_reads and 'O_DIRECTORY' not in args:
+                    ev.append(('read', paths[0]))
+            elif want_reads:
+                continue
             elif call in ('unlink', 'unlinkat', 'rmdir'):
                 ev.append(('unlink', paths[0] if paths else ''))
             elif call in ('rename', 'renameat', 'renameat2'):
